@@ -86,6 +86,8 @@ def main():
             else:
                 acc = set(ts["accept"])
                 attrs["should_instrument_file"] = lambda self, filename, acc=acc: os.path.basename(os.path.dirname(filename)) + "/" + os.path.basename(filename) in acc
+            if ts.get("no_import_events"):
+                attrs["file_passes_filter_for_event"] = lambda self, evt, filename: evt not in ("before_import", "after_import")
             cls = type(ts["cls"], (pyc.BaseTracer,), attrs)
             tracers.append(cls.instance())
 
@@ -120,6 +122,14 @@ def main():
         os.setgid(65534)
         os.setuid(65534)
     imp(c.get("pre", []), "pre")
+    if tracers and c.get("optin_before"):
+        # an EARLIER context of every tracer opts files in for its own duration (tracing_enabled_file, as the `instrumented` decorator
+        # does for the file of the function it wraps); it has ended before the contexts below are entered
+        for f in c["optin_before"]:
+            path = os.path.join(c["root"], "pk", f) if f.startswith("sub/") else os.path.join(c["root"], f)
+            for t in tracers:
+                with t.tracing_context(disabled=False, tracing_enabled_file=path):
+                    pass
     if tracers:
         from contextlib import ExitStack
         try:
